@@ -391,6 +391,25 @@ static void do_S(char *line)
     free(e);
 }
 
+/* I : table of the IDN library's message for every code in [-400, 10] (ground truth for C15/C19) */
+static void do_I(void)
+{
+#ifdef HAVE_LIBIDN2
+    int c, first = 1;
+    putchar('{');
+    for (c = -400; c <= 10; c++) {
+        const char *m = idn2_strerror(c);
+        if (!first) putchar(',');
+        first = 0;
+        printf("\"%d\":", c);
+        put_jstr(stdout, m);
+    }
+    printf("}\n");
+#else
+    printf("{}\n");
+#endif
+}
+
 int main(void)
 {
     char *line = NULL;
@@ -412,6 +431,7 @@ int main(void)
         case 'U': do_U(line); break;
 #endif
         case 'S': do_S(line); break;
+        case 'I': do_I(); break;
         case 'Q': goto out;
         default: printf("null\n");
         }
